@@ -20,14 +20,19 @@ P2 == ParseFen("r3k2r/8/8/8/8/8/8/R3K2R b KQkq - 0 1")
 P3 == ParseFen("1n2k1n1/P6P/8/8/8/8/8/4K3 w - - 0 1")                    \* promotions with and without capture
 P4 == ParseFen("7k/8/8/8/8/8/8/K3R3 w - - 0 1")                          \* e1h1 by a rook: not castling
 P5 == ParseFen("rnbqkbnr/pppppppp/8/8/8/8/PPPPPPPP/RNBQKBNR w KQkq - 0 1")
+\* back-rank moves e1-h1 / e1-g1 / e1-a1 / e1-c1 by a rook or queen (not castling) while the OPPONENT still holds castling rights
+P6 == ParseFen("r3k2r/8/8/8/8/8/4P1K1/4R3 w kq - 0 1")
+P7 == ParseFen("4q3/1k2p3/8/8/8/8/8/R3K2R b KQ - 0 1")
 Cand(p) == CASE p = P1 -> <<"e1g1", "e1c1", "a2a4", "e1f1">>
              [] p = P2 -> <<"e8g8", "e8c8", "h8h1", "a8a1">>
              [] p = P3 -> <<"a7a8q", "a7b8n", "h7h8r", "h7g8b">>
              [] p = P4 -> <<"e1h1", "e1d1", "e1e8", "a1b1">>
              [] p = P5 -> <<"e2e4", "d2d4", "g1f3", "c2c4">>
-Positions == IF Full THEN {P1, P2, P3, P4, P5} ELSE {P1, P3, P4}
+             [] p = P6 -> <<"e1h1", "e1g1", "e1a1", "e1c1">>
+             [] p = P7 -> <<"e8h8", "e8g8", "e8a8", "e8c8">>
+Positions == IF Full THEN {P1, P2, P3, P4, P5, P6, P7} ELSE {P1, P3, P4, P6, P7}
 Weights == {0, 1, 2, 5}
-ASSUME \A p \in {P1, P2, P3, P4, P5} : \A i \in 1..4 : ParseUci(Cand(p)[i]) \in Legal(p)
+ASSUME \A p \in {P1, P2, P3, P4, P5, P6, P7} : \A i \in 1..4 : ParseUci(Cand(p)[i]) \in Legal(p)
 
 \* move index sequences without repetition, length 1..3 (order matters: it is the file order)
 Seqs(n) == UNION {{s \in [1..k -> 1..n] : \A i, j \in 1..k : i # j => s[i] # s[j]} : k \in 1..3}
